@@ -78,7 +78,7 @@ func TestRaceAudit(t *testing.T) {
 				if !g.four() {
 					env = 3
 				}
-				cases = append(cases, ra.Case{Key: fmt.Sprintf("era=%s,envelope=%d|a=%d,b=%d|%s", EraNames[g.Era], env, ab[0], ab[1], re), PerG: true, Fn: func(gid int) string {
+				cases = append(cases, ra.Case{Key: fmt.Sprintf("fee+size|era=%s,envelope=%d|a=%d,b=%d|%s", EraNames[g.Era], env, ab[0], ab[1], re), PerG: true, Fn: func(gid int) string {
 					seed := int64(60 + gid)
 					key := NewKey(seed, 1)
 					in := MkIn(int(seed)+1, 0)
